@@ -234,8 +234,10 @@ static void run(const Case &c, Ctx &ctx) {
             int lv = (int)(1 + op.arg(0) % 6);
             uint64_t sk = op.arg(1) % (2 + NSUBJ);
             bool registered = sk != 1;
+            // unregistered ids: an arbitrary one, or the id just past the end of a registered list
+            aws_log_subject_t unreg = (op.arg(4) & 1) ? (aws_log_subject_t)0x7123 : (aws_log_subject_t)(AWS_LOG_SUBJECT_BEGIN_RANGE(21) + NSUBJ);
             aws_log_subject_t subject = sk == 0   ? (aws_log_subject_t)AWS_LS_COMMON_GENERAL
-                                        : sk == 1 ? (aws_log_subject_t)0x7123
+                                        : sk == 1 ? unreg
                                                   : g_subj_infos[sk - 2].subject_id;
             std::string sname = aws_log_subject_name(subject);
             if (!registered) PBT_CHECK(sname == "Unknown", "unregistered subject name [%s]", sname.c_str());
